@@ -164,4 +164,32 @@ example : ((Cmd.setState {}).toBytes 255).2 = 256 := rfl
 example : ∃ b, (Cmd.setProperties [(pidIeco, 1), (pidBuzzer, 0)]).body = .ok b := ⟨_, rfl⟩
 example : (Cmd.setProperties [(pidAnion, 1)]).body = .error (.py "NotImplementedError") := rfl
 
+/-! ### the message-id counter as translated -/
+
+/-- the ids returned by `n` successive calls of the translated `_next_message_id`, the class counter being `c` before -/
+def idsCode : Int → Nat → List Int
+  | _, 0 => []
+  | c, n + 1 => (Generated.Codec.nextMessageId c).1 :: idsCode (Generated.Codec.nextMessageId c).2 n
+
+/-- **C12 (message ids) about the translated code.** From ANY counter value, for ANY number of calls: the i-th id handed out
+    is `(c + i + 1) mod 256` - consecutive ids advance by one modulo 256 indefinitely (the Python int never wraps). -/
+theorem message_ids_advance_code (c n i : Nat) (h : i < n) :
+    (idsCode (c : Int) n)[i]? = some (((c + i + 1) % 256 : Nat) : Int) := by
+  induction n generalizing c i with
+  | zero => omega
+  | succ m ih =>
+    unfold idsCode
+    rw [CodecEq.nextMessageId_eq]
+    simp only [Model.nextMessageId, CodecEq.u8_mod]
+    cases i with
+    | zero => simp
+    | succ j =>
+      simp only [List.getElem?_cons_succ]
+      rw [ih (c + 1) j (by omega)]
+      congr 3
+      omega
+
+example : idsCode 253 4 = [254, 255, 0, 1] := by decide +kernel
+
+
 end Msmart.Props.C12
